@@ -197,4 +197,157 @@ func genC11(repo, out string) {
 	if err := os.WriteFile(filepath.Join(dir, "export_verif_c11_gen.go"), []byte(g.String()), 0o644); err != nil {
 		die("%v", err)
 	}
+	genC11Read(repo, out)
+}
+
+// ---------------------------------------------------------------- read side (check-then-look-up windows)
+//
+// Two places in the read path decide "is this segment still unrotated?" under one RLock and look the segment
+// up under a second one.  To replay a rotation completing in between, one pause line
+//
+//	verifC11Pause("<function>:<callee>", <key>, <qid>)
+//
+// is inserted immediately before the statement containing the look-up call (i.e. after the check):
+//
+//	pkg/segment/query/segquery.go               GetSSRsFromQSR            before …ExtractUnrotatedSSRFromSearchNode(…)
+//	pkg/segment/reader/segread/multicolreader.go initNewMultiColumnReader  before …GetBlockSearchInfoForKey(…)
+//
+// The hook variable, its caller and the flags live in <pkg>/export_verif_c11_gen.go (always generated, so the
+// harness builds either way).
+
+type c11ReadTarget struct {
+	rel, file, pkg string
+	fn, callee     string
+	keyExpr        string // $0 = first parameter / receiver, $arg0 = text of the callee's first argument
+	qidExpr        string
+}
+
+var c11ReadTargets = []c11ReadTarget{
+	{"pkg/segment/query", "segquery.go", "query", "GetSSRsFromQSR", "ExtractUnrotatedSSRFromSearchNode", "$0.segKey", "$0.qid"},
+	{"pkg/segment/reader/segread", "multicolreader.go", "segread", "initNewMultiColumnReader", "GetBlockSearchInfoForKey", "$arg0", "qid"},
+}
+
+func genC11Read(repo, out string) {
+	for _, t := range c11ReadTargets {
+		dir := filepath.Join(out, t.rel)
+		if err := os.MkdirAll(dir, 0o755); err != nil {
+			die("%v", err)
+		}
+		path := filepath.Join(repo, t.rel, t.file)
+		if _, err := os.Stat(filepath.Join(dir, t.file)); err == nil {
+			path = filepath.Join(dir, t.file)
+		}
+		problem := ""
+		var res []byte
+		point := t.fn + ":" + t.callee
+		func() {
+			src, err := os.ReadFile(path)
+			if err != nil {
+				problem = err.Error()
+				return
+			}
+			fset := token.NewFileSet()
+			f, err := parser.ParseFile(fset, path, src, parser.ParseComments)
+			if err != nil {
+				problem = err.Error()
+				return
+			}
+			var fd *ast.FuncDecl
+			for _, d := range f.Decls {
+				if x, ok := d.(*ast.FuncDecl); ok && x.Name.Name == t.fn && x.Body != nil {
+					fd = x
+				}
+			}
+			if fd == nil {
+				problem = "function " + t.fn + " not found"
+				return
+			}
+			p0 := c11StoreName(fd)
+			body := string(src[fset.Position(fd.Body.Pos()).Offset:fset.Position(fd.Body.End()).Offset])
+			params := map[string]bool{}
+			for _, p := range fd.Type.Params.List {
+				for _, n := range p.Names {
+					params[n.Name] = true
+				}
+			}
+			var stack []ast.Node
+			off := -1
+			n := 0
+			arg0 := ""
+			ast.Inspect(fd.Body, func(x ast.Node) bool {
+				if x == nil {
+					stack = stack[:len(stack)-1]
+					return true
+				}
+				stack = append(stack, x)
+				if _, isLit := x.(*ast.FuncLit); isLit {
+					stack = stack[:len(stack)-1]
+					return false
+				}
+				ce, ok := x.(*ast.CallExpr)
+				if !ok || c11CalleeName(ce) != t.callee {
+					return true
+				}
+				n++
+				if len(ce.Args) > 0 {
+					arg0 = string(src[fset.Position(ce.Args[0].Pos()).Offset:fset.Position(ce.Args[0].End()).Offset])
+				}
+				for i := len(stack) - 1; i >= 1; i-- {
+					st, isStmt := stack[i].(ast.Stmt)
+					if !isStmt {
+						continue
+					}
+					switch stack[i-1].(type) {
+					case *ast.BlockStmt, *ast.CaseClause, *ast.CommClause:
+						off = fset.Position(st.Pos()).Offset
+						return true
+					}
+				}
+				return true
+			})
+			if n != 1 || off < 0 {
+				problem = fmt.Sprintf("%s: expected exactly one call of %s in a statement list, found %d", t.fn, t.callee, n)
+				return
+			}
+			expr := func(tmpl string) string {
+				e := strings.ReplaceAll(strings.ReplaceAll(tmpl, "$arg0", arg0), "$0", p0)
+				return e
+			}
+			key, qid := expr(t.keyExpr), expr(t.qidExpr)
+			// every identifier the inserted line uses must already be used by / be a parameter of the function
+			for _, e := range []string{key, qid} {
+				if e == "" || !(params[e] || strings.Contains(body, e)) {
+					problem = fmt.Sprintf("%s: expression %q is not available in the function", t.fn, e)
+					return
+				}
+			}
+			var b strings.Builder
+			b.WriteString("// INSTRUMENTED COPY generated by /verif/harness/cmd/overlaygen (c11.go) from " + t.rel + "/" + t.file + " — do not edit.\n")
+			b.Write(src[:off])
+			fmt.Fprintf(&b, "verifC11Pause(%q, %s, uint64(%s))\n", point, key, qid)
+			b.Write(src[off:])
+			res = []byte(b.String())
+			if _, err := parser.ParseFile(token.NewFileSet(), path, res, 0); err != nil {
+				problem = "instrumented copy does not parse: " + err.Error()
+				res = nil
+			}
+		}()
+		var g strings.Builder
+		g.WriteString("//go:build verif\n\n// GENERATED by /verif/harness/cmd/overlaygen (c11.go) — do not edit.\n\npackage " + t.pkg + "\n\n")
+		g.WriteString("// VerifC11Pause is nil except in the C11 replay worker; called after the \"still unrotated?\" check and before the look-up.\n")
+		g.WriteString("var VerifC11Pause func(point string, segkey string, qid uint64)\n\n")
+		g.WriteString("func verifC11Pause(point string, segkey string, qid uint64) {\n\tif h := VerifC11Pause; h != nil {\n\t\th(point, segkey, qid)\n\t}\n}\n\n")
+		if problem == "" {
+			if err := os.WriteFile(filepath.Join(dir, t.file), res, 0o644); err != nil {
+				die("%v", err)
+			}
+			fmt.Fprintf(&g, "const VerifC11Instrumented = true\n\nconst VerifC11Point = %q\n\nconst VerifC11Problem = \"\"\n", point)
+		} else {
+			fmt.Fprintf(os.Stderr, "overlaygen: C11 read-side window in %s not recognised, no instrumented copy: %s\n", t.file, problem)
+			fmt.Fprintf(&g, "const VerifC11Instrumented = false\n\nconst VerifC11Point = %q\n\nconst VerifC11Problem = %q\n\nvar _ = verifC11Pause\n", point, problem)
+		}
+		if err := os.WriteFile(filepath.Join(dir, "export_verif_c11_gen.go"), []byte(g.String()), 0o644); err != nil {
+			die("%v", err)
+		}
+	}
 }
